@@ -3,6 +3,8 @@ package main
 import (
 	"encoding/hex"
 	"fmt"
+	"os"
+	"regexp"
 	"runtime"
 	"runtime/debug"
 	"strings"
@@ -38,10 +40,12 @@ const (
 )
 
 type tcase struct {
-	data  []byte
-	class string // attack class (part of finding keys)
-	sub   string // finer structural class (Distinct only)
-	ord   int64
+	data   []byte
+	class  string // attack class (part of finding keys)
+	sub    string // finer structural class (Distinct only)
+	ord    int64
+	soloed bool
+	cpu    int64 // thread CPU of the first run
 }
 
 type target struct {
@@ -53,17 +57,17 @@ type target struct {
 type calib struct{ cpuNs, bytes int64 }
 
 type mon struct {
-	b         *harness.B
+	b         *recB
 	skip      int64
 	ord       int64
 	cal       map[string]*calib
-	siteCache map[string]string
-	profiles  int
 	journaled int
+	abandon   map[string]bool // entry points / operators whose remaining cases are not executed (too many process-fatal inputs)
+	confirmed map[string]bool // entry|class|sub with a confirmed alloc/cpu violation: further identical attacks are skipped
 }
 
-func newMon(b *harness.B, skip int64) *mon {
-	return &mon{b: b, skip: skip, cal: map[string]*calib{}, siteCache: map[string]string{}}
+func newMon(b *recB, skip int64) *mon {
+	return &mon{b: b, skip: skip, cal: map[string]*calib{}, confirmed: map[string]bool{}, abandon: map[string]bool{}}
 }
 
 func threadCPU() int64 {
@@ -89,6 +93,43 @@ func (m *mon) cpuBound(t *target, n int) int64 {
 		bd = cpuFloorNs
 	}
 	return bd
+}
+
+// coreFrame is the innermost go.sia.tech/core frame of a stack that is not one
+// of the Currency arithmetic helpers (whose panics are the caller's doing).
+func coreFrame(stack string) string {
+	fallback := ""
+	for _, ln := range strings.Split(stack, "\n") {
+		ln = strings.TrimSpace(ln)
+		if !strings.HasPrefix(ln, "go.sia.tech/core/") {
+			continue
+		}
+		if i := strings.LastIndex(ln, "("); i > 0 {
+			ln = ln[:i]
+		}
+		ln = strings.TrimPrefix(ln, "go.sia.tech/core/")
+		for {
+			j := strings.LastIndex(ln, ".func")
+			if j < 0 {
+				break
+			}
+			ln = ln[:j]
+		}
+		if j := strings.Index(ln, "[...]"); j >= 0 {
+			ln = ln[:j]
+		}
+		if strings.HasPrefix(ln, "types.Currency.") {
+			if fallback == "" {
+				fallback = ln
+			}
+			continue
+		}
+		return ln
+	}
+	if fallback != "" {
+		return fallback
+	}
+	return "unknown"
 }
 
 func panicKind(msg string) string {
@@ -134,7 +175,7 @@ func (m *mon) guard(t *target, c *tcase) (out uint8) {
 		if r := recover(); r != nil {
 			out = 2
 			st := string(debug.Stack())
-			fr := harness.FirstCoreFrame(st)
+			fr := coreFrame(st)
 			if fr == "unknown" {
 				fr = t.name
 			}
@@ -174,6 +215,14 @@ func (f *feeder) add(class, sub string, data []byte) {
 	if f.m.ord <= f.m.skip {
 		return
 	}
+	if f.m.abandon[f.t.name] {
+		f.m.b.Count("cases_not_run_after_repeated_process_fatal_inputs", 1)
+		return
+	}
+	if len(f.m.confirmed) > 0 && f.m.confirmed[skipSig(f.t, class, sub, data)] {
+		f.m.b.Count("cases_skipped_after_confirmed_violation_of_same_entry_class_sub", 1)
+		return
+	}
 	f.win = append(f.win, tcase{data: data, class: class, sub: sub, ord: f.m.ord})
 	f.tot += len(data)
 	if len(f.win) >= 64 || f.tot >= 2<<20 {
@@ -190,34 +239,72 @@ func (f *feeder) flush() {
 	f.tot = 0
 }
 
+var reExpToken = regexp.MustCompile(`(^|[^0-9a-zA-Z])[0-9.]+[eEpP][+-]?[0-9]{3,}([^0-9a-zA-Z]|$)`)
+
+// category is the content-derived attack category used in allocation / CPU
+// finding keys and for skipping identical attacks after a confirmed violation:
+// a text input that contains a number token with a large exponent is an
+// "exponent" attack whichever generator produced it.
+func category(t *target, c *tcase) string {
+	if t.kind == "text" && len(c.data) < 1<<16 && reExpToken.Match(c.data) {
+		return "exponent"
+	}
+	return c.class
+}
+
+func skipSig(t *target, class, sub string, data []byte) string {
+	if t.kind == "text" && len(data) < 1<<16 && reExpToken.Match(data) {
+		return t.name + "|exponent"
+	}
+	return t.name + "|" + class + "|" + sub
+}
+
+var debugSlow = os.Getenv("C10_DEBUG") != ""
+
+const slowCallNs = 100_000_000 // a call this slow ends its window early (see window)
+
 func (m *mon) window(f *feeder, cs []tcase) {
 	t := f.t
 	b := m.b
 	recs := make([]string, len(cs))
 	cpu := make([]int64, len(cs))
 	out := make([]uint8, len(cs))
-	total := 0
 	for i := range cs {
 		recs[i] = journalRec(t, &cs[i])
-		total += len(cs[i].data)
 	}
 	if m.journaled > 4000 {
 		b.JournalReset()
 		m.journaled = 0
 	}
-	m.journaled += len(cs)
 
 	var m0, m1 runtime.MemStats
+	done := 0
 	runtime.ReadMemStats(&m0)
 	for i := range cs {
 		b.Journal(recs[i])
 		c0 := threadCPU()
 		out[i] = m.guard(t, &cs[i])
 		cpu[i] = threadCPU() - c0
+		cs[i].cpu = cpu[i]
+		done = i + 1
+		if debugSlow && cpu[i] > slowCallNs/5 {
+			fmt.Fprintf(os.Stderr, "slow call %s %s/%s %.0f ms: %q\n", t.name, cs[i].class, cs[i].sub, float64(cpu[i])/1e6, capStr(string(cs[i].data), 80))
+		}
+		if cpu[i] > slowCallNs {
+			break // judge this one first, so that identical attacks that follow can be skipped
+		}
 	}
 	runtime.ReadMemStats(&m1)
 	alloc := m1.TotalAlloc - m0.TotalAlloc
+	rest := cs[done:]
+	cs = cs[:done]
+	m.journaled += done
+	total := 0
+	for i := range cs {
+		total += len(cs[i].data)
+	}
 
+	b.tick()
 	b.Eval(len(cs))
 	b.Count("alloc_batches_measured", 1)
 	b.Count("cpu_calls_measured", len(cs))
@@ -247,13 +334,39 @@ func (m *mon) window(f *feeder, cs []tcase) {
 			cal.bytes += int64(len(c.data) + 64)
 		}
 	}
+	// CPU suspects first: the solo run judges both monitors for that case
+	for i := range cs {
+		if bd := m.cpuBound(t, len(cs[i].data)); cpu[i] > bd && !cs[i].soloed {
+			m.solo(t, &cs[i], cpu[i])
+		}
+	}
 	if alloc > allocBound(total) {
 		b.Count("alloc_windows_over_bound_bisected", 1)
-		m.bisect(t, cs)
+		remaining := m.unjudged(t, cs)
+		switch {
+		case len(remaining) == len(cs):
+			m.bisect(t, remaining) // the window measurement stands
+		case len(remaining) > 0:
+			n := 0
+			for i := range remaining {
+				n += len(remaining[i].data)
+			}
+			if m.quiet(t, remaining) > allocBound(n) {
+				m.bisect(t, remaining)
+			}
+		}
 	}
-	for i := range cs {
-		if bd := m.cpuBound(t, len(cs[i].data)); cpu[i] > bd {
-			m.confirmCPU(t, &cs[i], cpu[i])
+	if len(rest) > 0 {
+		keep := make([]tcase, 0, len(rest))
+		for _, c := range rest {
+			if m.confirmed[skipSig(t, c.class, c.sub, c.data)] {
+				b.Count("cases_skipped_after_confirmed_violation_of_same_entry_class_sub", 1)
+				continue
+			}
+			keep = append(keep, c)
+		}
+		if len(keep) > 0 {
+			m.window(f, keep)
 		}
 	}
 }
@@ -275,13 +388,29 @@ func quietCall(t *target, in []byte) {
 	t.call(in)
 }
 
+// unjudged drops the cases that were already judged alone or that repeat an
+// attack with a confirmed violation.
+func (m *mon) unjudged(t *target, cs []tcase) []tcase {
+	out := make([]tcase, 0, len(cs))
+	for _, c := range cs {
+		if !c.soloed && !m.confirmed[skipSig(t, c.class, c.sub, c.data)] {
+			out = append(out, c)
+		}
+	}
+	return out
+}
+
 func (m *mon) bisect(t *target, cs []tcase) {
 	if len(cs) == 1 {
-		m.solo(t, &cs[0])
+		m.solo(t, &cs[0], -1)
 		return
 	}
 	h := len(cs) / 2
 	for _, half := range [][]tcase{cs[:h], cs[h:]} {
+		half = m.unjudged(t, half)
+		if len(half) == 0 {
+			continue
+		}
 		n := 0
 		for i := range half {
 			n += len(half[i].data)
@@ -292,42 +421,66 @@ func (m *mon) bisect(t *target, cs []tcase) {
 	}
 }
 
-func (m *mon) solo(t *target, c *tcase) {
+// solo re-runs ONE suspect alone (after a GC, heap profile sampled every 4 KiB) and
+// takes the verdict of both the allocation and the CPU monitor from that run.
+// firstCPU is the CPU time of the first run (-1 if the suspicion is about
+// allocation only).
+func (m *mon) solo(t *target, c *tcase, firstCPU int64) {
+	c.soloed = true
+	allocOnly := firstCPU < 0
+	if c.cpu > 0 {
+		firstCPU = c.cpu
+	}
+	old := runtime.MemProfileRate
+	runtime.MemProfileRate = 4096
 	runtime.GC()
-	a := m.quiet(t, []tcase{*c})
-	bd := allocBound(len(c.data))
-	m.b.Count("alloc_solo_measurements", 1)
-	if a <= bd {
-		m.b.Count("alloc_suspects_cleared_by_solo_measurement", 1)
-		return
-	}
-	site := m.allocSite(t, c)
-	w := witnessOf(t, c)
-	w["allocated_bytes_solo"] = a
-	w["bound_bytes"] = bd
-	w["allocation_site"] = site
-	m.b.MaxOf("max_solo_alloc_over_bound_bytes", int64(a))
-	m.b.Violate(fmt.Sprintf("C10/alloc/%s/%s", site, c.class),
-		fmt.Sprintf("%s allocated %d bytes for a %d-byte %s input (bound 1 MiB + 1024*len = %d), measured alone", t.name, a, len(c.data), c.class, bd), w)
-}
-
-// allocSite names the innermost core frame of the allocation site that
-// dominates one more solo run (heap profile at rate 1).
-func (m *mon) allocSite(t *target, c *tcase) string {
-	ck := t.name + "|" + c.class
-	if s, ok := m.siteCache[ck]; ok {
-		return s
-	}
+	runtime.GC()
+	before := profSnapshot()
+	var m0, m1 runtime.MemStats
+	runtime.ReadMemStats(&m0)
+	c0 := threadCPU()
+	quietCall(t, c.data)
+	cpu := threadCPU() - c0
+	runtime.ReadMemStats(&m1)
+	runtime.MemProfileRate = old
+	a := m1.TotalAlloc - m0.TotalAlloc
+	abd := allocBound(len(c.data))
+	cbd := m.cpuBound(t, len(c.data))
+	m.b.Count("solo_measurements", 1)
 	site := ""
-	if m.profiles < 12 {
-		m.profiles++
-		site = topAllocSite(func() { quietCall(t, c.data) })
+	if a > abd {
+		runtime.GC()
+		runtime.GC()
+		site = topDelta(before, profSnapshot())
+		if site == "" {
+			site = t.name
+		}
+		w := witnessOf(t, c)
+		w["allocated_bytes_solo"], w["bound_bytes"], w["allocation_site"] = a, abd, site
+		m.b.MaxOf("max_solo_alloc_over_bound_bytes", int64(a))
+		m.b.Violate(fmt.Sprintf("C10/alloc/%s/%s", site, category(t, c)),
+			fmt.Sprintf("%s allocated %d bytes for a %d-byte %s input (bound 1 MiB + 1024*len = %d), measured alone", t.name, a, len(c.data), c.class, abd), w)
+		m.confirmed[skipSig(t, c.class, c.sub, c.data)] = true
+	} else if allocOnly {
+		m.b.Count("alloc_suspects_cleared_by_solo_measurement", 1)
 	}
-	if site == "" {
-		site = t.name
+	if firstCPU > cbd {
+		if cpu <= cbd {
+			m.b.Inconclusive("thread-CPU bound exceeded once but not confirmed by the solo re-run (" + t.name + ")")
+			return
+		}
+		if site == "" {
+			site = t.name
+		}
+		w := witnessOf(t, c)
+		w["cpu_ns_first"], w["cpu_ns_solo"], w["bound_ns"] = firstCPU, cpu, cbd
+		if cal := m.cal[t.name]; cal != nil && cal.bytes > 0 {
+			w["calibrated_ns_per_byte"] = float64(cal.cpuNs) / float64(cal.bytes)
+		}
+		m.b.Violate(fmt.Sprintf("C10/cpu/%s/%s", site, category(t, c)),
+			fmt.Sprintf("%s used %.1f ms of thread CPU on a %d-byte %s input (bound %.1f ms = 10^4 x calibrated per-byte cost), confirmed alone: %.1f ms", t.name, float64(firstCPU)/1e6, len(c.data), c.class, float64(cbd)/1e6, float64(cpu)/1e6), w)
+		m.confirmed[skipSig(t, c.class, c.sub, c.data)] = true
 	}
-	m.siteCache[ck] = site
-	return site
 }
 
 func profSnapshot() map[[32]uintptr]int64 {
@@ -347,17 +500,9 @@ func profSnapshot() map[[32]uintptr]int64 {
 	}
 }
 
-func topAllocSite(f func()) string {
-	old := runtime.MemProfileRate
-	runtime.MemProfileRate = 1
-	defer func() { runtime.MemProfileRate = old }()
-	runtime.GC()
-	runtime.GC()
-	before := profSnapshot()
-	f()
-	runtime.GC()
-	runtime.GC()
-	after := profSnapshot()
+// topDelta names the innermost core frame of the allocation site with the
+// largest growth between two heap-profile snapshots.
+func topDelta(before, after map[[32]uintptr]int64) string {
 	var best [32]uintptr
 	var bestD int64
 	for k, v := range after {
@@ -384,7 +529,6 @@ func topAllocSite(f func()) string {
 				}
 				fn = fn[:j]
 			}
-			// generic instantiation suffixes
 			if j := strings.Index(fn, "[...]"); j >= 0 {
 				fn = fn[:j]
 			}
@@ -397,21 +541,16 @@ func topAllocSite(f func()) string {
 	return ""
 }
 
-func (m *mon) confirmCPU(t *target, c *tcase, first int64) {
+// topAllocSite profiles one run of f (used by the validation workload).
+func topAllocSite(f func()) string {
+	old := runtime.MemProfileRate
+	runtime.MemProfileRate = 4096
+	defer func() { runtime.MemProfileRate = old }()
 	runtime.GC()
-	c0 := threadCPU()
-	quietCall(t, c.data)
-	second := threadCPU() - c0
-	bd := m.cpuBound(t, len(c.data))
-	if second <= bd {
-		m.b.Inconclusive("thread-CPU bound exceeded once but not confirmed by the solo re-run (" + t.name + ")")
-		return
-	}
-	w := witnessOf(t, c)
-	w["cpu_ns_first"], w["cpu_ns_solo"], w["bound_ns"] = first, second, bd
-	if cal := m.cal[t.name]; cal != nil && cal.bytes > 0 {
-		w["calibrated_ns_per_byte"] = float64(cal.cpuNs) / float64(cal.bytes)
-	}
-	m.b.Violate(fmt.Sprintf("C10/cpu/%s/%s", t.name, c.class),
-		fmt.Sprintf("%s used %.1f ms of thread CPU on a %d-byte %s input (bound %.1f ms = 10^4 x calibrated per-byte cost), confirmed alone: %.1f ms", t.name, float64(first)/1e6, len(c.data), c.class, float64(bd)/1e6, float64(second)/1e6), w)
+	runtime.GC()
+	before := profSnapshot()
+	f()
+	runtime.GC()
+	runtime.GC()
+	return topDelta(before, profSnapshot())
 }
